@@ -163,6 +163,16 @@ def load_doc(gd, text, cfg):
         p = os.path.join(d, "x.gfa")
         with open(p, "w", newline="", encoding="utf-8", errors="surrogateescape") as f:
             f.write(text)
+        if cfg.get("vlevel", 0) % 2 == 1 and not cfg.get("version") and not cfg.get("dialect"):
+            # the other way of reading a file: an existing Gfa with progress logging switched on (as bin/gfapy-mergelinear does)
+            import io
+
+            def read_with_progress():
+                g_ = gfapy.Gfa(vlevel=cfg["vlevel"])
+                g_.enable_progress_logging(part=0.5, channel=io.StringIO())
+                g_.read_file(p)
+                return g_
+            return gd.call("Gfa.read_file", read_with_progress)
         return gd.call("Gfa.from_file", gfapy.Gfa.from_file, p, **kw)
     finally:
         shutil.rmtree(d, ignore_errors=True)
